@@ -20,6 +20,7 @@ func init() {
 	vrt.Register("C15_first_line_of_multiline_tag", FirstLineOfMultilineTag)
 	vrt.Register("C15_two_faulty_tags", TwoFaultyTags)
 	vrt.Register("C15_after_a_block_has_run", AfterABlockHasRun)
+	vrt.Register("C15_later_line_of_multiline_tag", LaterLineOfMultilineTag)
 }
 
 func itoa(n int) string { return strconv.Itoa(n) }
@@ -348,5 +349,47 @@ func AfterABlockHasRun() {
 	vrt.Note("error", msg)
 	n, _ := lineOf(msg)
 	vrt.Assert(n == want, "N is the line of the tag with the failing statement, whatever ran before it")
+	vrt.Cover("done")
+}
+
+// ---- the failing statement (or the token the parser stands on) is on a LATER line
+// of a multi-line tag. The statement asks for the line on which the tag begins.
+// plush reports the line of the failing statement's first token (run-time errors in
+// <% %> tags) or of the token the parser stands on (syntax errors): a recorded
+// finding (known_findings.json, DESIGN.md 6.2), so the first assertion bounds what is
+// tolerated to exactly that behaviour and the second one states the property.
+func LaterLineOfMultilineTag() {
+	pre := filler(2)
+	k := 1 + vrt.Choice(2) // lines between the tag's first line and the failing statement
+	gap := strings.Repeat("\n", k)
+	var in string
+	syntax := false
+	switch vrt.Choice(6) {
+	case 0:
+		in = "<% let a = 1" + gap + "let b = one.Nope %>"
+	case 1:
+		in = "<%" + gap + "one.Nope %>"
+	case 2:
+		in = "<% let a = 1" + gap + "return fail() %>"
+	case 3:
+		in = "<% let a = 1" + gap + "let b = 1 / 0" + "\nlet c = 2 %>"
+	case 4:
+		in, syntax = "<%= foo(" + gap + "1 2) %>", true
+	default:
+		in, syntax = "<%" + gap + "let = 1 %>", true
+	}
+	err := render(pre + in)
+	vrt.Assert(err != nil, "a faulty template is an error")
+	msg := err.Error()
+	vrt.Note("error", msg)
+	n, _ := lineOf(msg)
+	tagLine := 1 + newlines(pre)
+	vrt.Assert(n >= 1, "the error starts with 'line N:'")
+	vrt.Assert(n == tagLine || n == tagLine+k, "a failing statement on a later line of a multi-line tag: N is the tag's line or the statement's, nothing else")
+	if syntax {
+		vrt.Assert(n == tagLine, "a syntax error on a later line of a multi-line tag: N is the line the tag begins on")
+	} else {
+		vrt.Assert(n == tagLine, "a failing statement on a later line of a multi-line tag: N is the line the tag begins on")
+	}
 	vrt.Cover("done")
 }
